@@ -82,7 +82,7 @@ M = [
     ("sge-no-hold", ["C07", "C02"], "gwf/backends/sge.py", "        if dependencies:\n            args.append(\"-hold_jid\")\n            args.append(\",\".join(dependencies))\n", ""),
     ("sge-no-strip", ["C07", "C08"], "gwf/backends/sge.py", "input=script).strip()", "input=script)"),
     ("local-no-deps", ["C07"], "gwf/backends/local.py", "            deps=deps or [],", "            deps=[],"),
-    ("slurm-substring-id", ["C08"], "gwf/backends/slurm.py", "            if job_id in tracked_jobs:\n                job_states[job_id] = SLURM_JOB_STATES[state]", "            if any(job_id in t for t in tracked_jobs):\n                job_states[job_id] = SLURM_JOB_STATES[state]"),
+    ("slurm-prefix-id", ["C08"], "gwf/backends/slurm.py", "            if job_id in tracked_jobs:\n                job_states[job_id] = SLURM_JOB_STATES[state]", "            for t in tracked_jobs:\n                if t.startswith(job_id):\n                    job_states[t] = SLURM_JOB_STATES[state]"),
     ("slurm-timeout-submitted", ["C08"], "gwf/backends/slurm.py", "    \"TO\": BackendStatus.FAILED,", "    \"TO\": BackendStatus.SUBMITTED,"),
     ("slurm-no-strip", ["C08", "C02"], "gwf/backends/slurm.py", "return call(\"sbatch\", *args, input=script).strip()", "return call(\"sbatch\", *args, input=script)"),
     ("slurm-acct-always", ["C08", "C20"], "gwf/backends/slurm.py", "        if self.accounting_enabled:\n            job_states.update", "        if True:\n            job_states.update"),
@@ -118,7 +118,7 @@ M = [
     ("conf-str-first", ["C20"], "gwf/conf.py", "CONVERTERS = (\n    try_int,\n    try_true,\n    try_false,\n    str,\n)", "CONVERTERS = (\n    str,\n    try_int,\n    try_true,\n    try_false,\n)"),
     ("conf-unset-prefix", ["C20"], "gwf/conf.py", "        if key in self.data.maps[0]:\n            del self.data[key]", "        for k in [k for k in self.data.maps[0] if k.startswith(key)]:\n            del self.data.maps[0][k]"),
     ("conf-beats-flag", ["C20"], "gwf/cli.py", "    backend = backend or config.get(\"backend\")", "    backend = config.get(\"backend\") or backend"),
-    ("conf-true-any-case", ["C20"], "gwf/conf.py", "    if value in (\"false\", \"no\"):\n        return False", "    if value in (\"false\", \"no\", \"0\"):\n        return False"),
+    ("conf-off-is-false", ["C20"], "gwf/conf.py", "    if value in (\"false\", \"no\"):\n        return False", "    if value in (\"false\", \"no\", \"off\"):\n        return False"),
 ]
 
 
